@@ -21,6 +21,7 @@ type in struct {
 	shouldKill          chan bool
 	wasKilled           chan bool
 	hasProc             bool
+	procNo              int // counts the started helper processes
 	listener            func(data []byte, deltamillisecs int32)
 }
 
@@ -35,6 +36,8 @@ func (o *in) fireCmd() error {
 	o.shouldKill = make(chan bool, 1)
 	o.wasKilled = make(chan bool, 1)
 	o.hasProc = true
+	o.procNo++
+	procNo := o.procNo
 	cmd := midiCatInCmd(o.number)
 	rd, wr := io.Pipe()
 	cmd.Stdout = wr
@@ -53,7 +56,9 @@ func (o *in) fireCmd() error {
 				return
 			}
 			o.RLock()
-			if !o.hasProc {
+			// the port may have been closed (and opened again) in the meantime:
+			// data of an old helper process must not reach the new listener
+			if !o.hasProc || o.procNo != procNo {
 				o.RUnlock()
 				return
 			}
